@@ -236,6 +236,9 @@ def examine_sequence(case):
     by = {(r[0], r[1], r[7]): r for r in all_rows()}
     out = []
     for pt in case['points']:
+        if pt and pt[0] == 'noise':
+            run_noise(pt)
+            continue
         g, e, c, age, esaa = pt[:5]
         row = by.get((g, e, esaa or False))
         if row is None:
@@ -245,6 +248,22 @@ def examine_sequence(case):
         v['sig'] = v['sig'] + ['interleaved-rows']
         v['case'] = case
     return out
+
+
+def run_noise(pt):
+    """['noise', function, args, kwargs]: an unrelated call between two judged ones - an unknown pair, a call that raises
+    (no factor row for the event, bad age), the inverse function."""
+    fn = {'score': athlib.athlon_score, 'needed': athlib.athlon_performance_needed,
+          'afactor': athlib.wma_athlon_age_factor}[pt[1]]
+    return call(fn, *pt[2], **(pt[3] if len(pt) > 3 else {}))
+
+
+NOISE = [['noise', 'score', ['X', '100', 11.5], {}], ['noise', 'score', ['?', 'NA', 42], {'age': 40}],
+         ['noise', 'score', ['M', '3000', 560.0], {'age': 50}], ['noise', 'score', ['F', '600', 100], {'age': 52}],
+         ['noise', 'score', ['M', '100', 'fast'], {}], ['noise', 'score', ['M', '100', 11.0], {'age': 'old'}],
+         ['noise', 'needed', ['M', 'NA', 500], {}], ['noise', 'needed', ['F', 'HJ', 900], {}],
+         ['noise', 'needed', ['M', '800', -3], {}], ['noise', 'afactor', ['M', 50, 'NOPE'], {}],
+         ['noise', 'afactor', ['x', 50, '100'], {}], ['noise', 'score', ['M', '800', 125.0], {'esaa': True, 'age': 45}]]
 
 
 def mixed_pass(ctx, rows):
@@ -267,6 +286,9 @@ def mixed_pass(ctx, rows):
         for ri, c, age in cases[i:i + 25]:
             row = rows[ri]
             sp = None
+            if rng.randrange(5) == 0:
+                seg.append(rng.choice(NOISE))
+                run_noise(seg[-1])
             if row[1] == row[2] and rng.randrange(6) == 0:       # not for the veterans' aliases (upper case by definition)
                 sp = rng.choice([(row[0].lower(), row[1].lower()), (row[0], row[1].lower()), (row[0].lower(), row[1]),
                                  (row[0], row[1].title())])
